@@ -60,6 +60,10 @@ def _events(shape):
     setitem("s_slice", "slice(1, 3)", "-3.0")
     setitem("s_step", "slice(None, None, 2)", "-4.0")
     setitem("s_negstep", "slice(None, None, -1)", "np.arange(x.shape[0], dtype=float).reshape((-1,) + (1,) * (x.ndim - 1)) * np.ones(x.shape[1:])", nval="np.arange(r.shape[0], dtype=float).reshape((-1,) + (1,) * (r.ndim - 1)) * np.ones(r.shape[1:])")
+    # stepped slices with non-broadcast values: the value offset per block matters
+    setitem("s_step_arr", "slice(1, None, 2)", "np.arange(len(range(1, x.shape[0], 2)), dtype=float).reshape((-1,) + (1,) * (x.ndim - 1)) * np.ones(x.shape[1:]) + 100", nval="np.arange(len(range(1, r.shape[0], 2)), dtype=float).reshape((-1,) + (1,) * (r.ndim - 1)) * np.ones(r.shape[1:]) + 100")
+    setitem("s_step3_arr", "slice(0, None, 3)", "np.arange(len(range(0, x.shape[0], 3)), dtype=float).reshape((-1,) + (1,) * (x.ndim - 1)) * np.ones(x.shape[1:]) + 200", nval="np.arange(len(range(0, r.shape[0], 3)), dtype=float).reshape((-1,) + (1,) * (r.ndim - 1)) * np.ones(r.shape[1:]) + 200")
+    setitem("s_negstep2_arr", "slice(None, None, -2)", "np.arange(len(range(x.shape[0] - 1, -1, -2)), dtype=float).reshape((-1,) + (1,) * (x.ndim - 1)) * np.ones(x.shape[1:]) + 300", nval="np.arange(len(range(r.shape[0] - 1, -1, -2)), dtype=float).reshape((-1,) + (1,) * (r.ndim - 1)) * np.ones(r.shape[1:]) + 300")
     setitem("s_list", "[0, -1]", "-5.0")
     setitem("s_ellipsis", "Ellipsis", "-6.0")
     setitem("s_npmask", "np.arange(x.shape[0]) % 2 == 0", "-7.0", nkey="np.arange(r.shape[0]) % 2 == 0")
@@ -204,7 +208,8 @@ def plan(tier, seed):
     shards = []
     for s in srcs:
         for e in _events(tuple(s["shape"])):
-            shards.append({"source": s, "first": e["name"], "L": L, "tier": tier})
+            # quick tier: length 3 on the 1-D source, length 2 on the others
+            shards.append({"source": s, "first": e["name"], "L": L if (tier != "quick" or len(s["shape"]) == 1) else 2, "tier": tier})
     if tier != "quick":
         # length 4 over a compact alphabet on one source
         for e in COMPACT:
